@@ -192,6 +192,11 @@ def run_case(c):
                 o2 = diff_of(pert)
                 if any(o2[j] != o[j] for j in range(s, e)):
                     rec["oracle"].append("run-locality")
+        if c["restrict"] and not all(mask):
+            # blind across gaps (open AND periodic lines): the values stored in invalid cells are never read
+            pert = [x if mask[j] else x + 1000 + 3 * j for j, x in enumerate(base)]
+            if diff_of(pert) != o:
+                rec["oracle"].append("invalid-cell-value-read")
         if L <= 6:
             w = [F((j * j * 3 + 1) % 11 - 5) for j in range(L)]
             ow = diff_of(w)
